@@ -726,6 +726,112 @@ def scoring_set():
     return C
 
 
+VP = "mpf/config_players/variable_player.py"
+
+
+def variable_player_set():
+    """variable_player entries that name a player (player: N, counted from 1) write to THAT player's variables, whoever
+    is up; entries without one write to the current player"""
+    C = ContractSet("C11v", "variable_player addresses the right player")
+    C.strings = False
+    C.cls("ConfigPlayer", fields={})
+    C.cls("TemplateI", fields=dict(value=Int))
+    C.ext("TemplateI.evaluate", model=lambda I, env, a, k: I.read_field(env["self"].ref, "value"), pure=True,
+          trusted_reason="template evaluation (C16)")
+    C.cls("PlayerI", fields={})
+    for m_ in ("add_with_kwargs", "set_with_kwargs"):
+        C.ext("PlayerI." + m_, model=(lambda nm: lambda I, env, a, k: (emit(
+            I, "player_write", kind=nm, player=env["self"].ref, var=a[0], value=a[1]), NONE)[1])(m_),
+            trusted_reason="Player.add_with_kwargs / set_with_kwargs: changes the variable of THAT player (C11 main set)")
+    NP = 3
+
+    def players(I, name):
+        return I.new_list([I.fresh(ObjS("PlayerI"), "%s[%d]" % (name, i)) for i in range(I.ctx.fork(NP) + 1)], name)
+    C.cls("GameI", fields=dict(player=ObjS("PlayerI"), player_list=Init(players), num_players=Int))
+    C.cls("VariablePlayer", file=VP, bases=["ConfigPlayer"], fields=dict(
+        machine=ObjS("MachineController", game=ObjS("GameI"))))
+    C.ext("VariablePlayer.warning_log", model=common.noop, trusted_reason="logging")
+
+    def wrote_to(I, entry, var, value):
+        evs = events_named(I, "player_write")
+        if len(evs) != 1:
+            return VBool(False)
+        e = evs[0]
+        game = I.force(I.read_field(I.force(I.read_field(I.frames[0].env["self"].ref, "machine")).ref, "game")).ref
+        cur = I.force(I.read_field(game, "player")).ref
+        plist = [I.force(x).ref for x in I.container(I.force(I.read_field(game, "player_list")).ref).items]
+        ent = I.force(entry)
+        pn = I.force(I.getitem(ent, VStr("player")))
+        act = I.pyconst(I.force(I.getitem(ent, VStr("action"))))
+        kind_ok = e.args["kind"] == ("add_with_kwargs" if act == "add" else "set_with_kwargs")
+        cases = []
+        for g_, alt in (pn.alts if isinstance(pn, VUnion) else ((z3.BoolVal(True), pn),)):
+            if alt.tag == "none":
+                cases.append(z3.And(g_, z3.BoolVal(e.args["player"] is cur)))
+                continue
+            n = alt.t
+            sub = [z3.And(n == 0, z3.BoolVal(e.args["player"] is cur))]
+            for i, p_ in enumerate(plist):
+                sub.append(z3.And(n == i + 1, z3.BoolVal(e.args["player"] is p_)))
+            sub.append(z3.And(n > len(plist), z3.BoolVal(e.args["player"] is cur)))
+            cases.append(z3.And(g_, z3.Or(sub)))
+        return VBool(z3.And(z3.BoolVal(bool(kind_ok)), I.eq(e.args["var"], var), I.eq(e.args["value"], value), z3.Or(cases)))
+    C.helpers["wrote_to_addressed_player"] = wrote_to
+    C.trace_helpers = {"wrote_to_addressed_player"}
+    C.fn("VariablePlayer._set_variable",
+         params=dict(var=Str, entry=Rec(float=NoneT, int=ObjS("TemplateI"), string=NoneT,
+                                        action=Union(Const("add"), Const("set")), player=Opt(Int)),
+                     placeholder_parameters=Opaque("Params"), context=Str),
+         requires=[("a value is configured", "entry['int'] is not None"),
+                   ("player numbers are not negative", "entry['player'] is None or entry['player'] >= 0")],
+         ensures=[("VP1: exactly one write, of the evaluated value, to the variable of the ADDRESSED player: player N "
+                   "(counted from 1, player 1 included) when the game has that many players - whoever is up - and the "
+                   "current player when no player is named (or the named one does not exist)",
+                   "wrote_to_addressed_player(entry, var, entry['int'].value)")],
+         modifies=[], raises={},
+         bounded="BOUNDED: games of at most %d players; int-valued entries with action add / set" % NP)
+    return C
+
+
+def timer_var_set():
+    """the timer device mirrors its count into a variable of the player it is loaded with: the device (and its cached
+    count) outlives players and games, the variable belongs to ONE player - so every write of the count, also of a value
+    the device already holds, reaches the current player's variable"""
+    C = ContractSet("C11w", "a timer's tick variable is written for the current player")
+    C.strings = False
+    C.cls("ModeDevice", fields={})
+    C.cls("PlayerI", fields={})
+    C.ext("PlayerI.__setitem__", model=lambda I, env, a, k: (emit(I, "player_set", player=env["self"].ref, name=a[0],
+                                                                  value=a[1]), NONE)[1],
+          trusted_reason="Player.__setitem__: sets the variable of that player and posts player_<name> (C11 main set)")
+    C.cls("Timer", file="mpf/devices/timer.py", bases=["ModeDevice"], check_bases=False,
+          fields=dict(_ticks=Int, player=Opt(ObjS("PlayerI")), tick_var=Str))
+
+    def mirrored(I, value):
+        this = I.frames[0].env["self"].ref
+        pl = I.force(I.read_field(this, "player"))
+        evs = events_named(I, "player_set")
+        cases = []
+        for g_, alt in (pl.alts if isinstance(pl, VUnion) else ((z3.BoolVal(True), pl),)):
+            if alt.tag == "none":
+                cases.append(z3.And(g_, z3.BoolVal(len(evs) == 0)))
+            else:
+                ok = len(evs) == 1 and evs[0].args["player"] is alt.ref
+                cases.append(z3.And(g_, z3.BoolVal(bool(ok)),
+                                    *([I.eq(evs[0].args["name"], I.read_field(this, "tick_var")),
+                                       I.eq(evs[0].args["value"], value)] if ok else [])))
+        return VBool(z3.Or(cases))
+    C.helpers["mirrored_to_current_player"] = mirrored
+    C.trace_helpers = {"mirrored_to_current_player"}
+    C.fn("Timer.ticks@setter", params=dict(value=Int),
+         ensures=[("TV1: the count is stored and - whenever the timer is loaded for a player - written to THAT player's "
+                   "tick variable, once; also when the device already holds this value (it may hold it from the previous "
+                   "player or game: the new player's variable still has to be initialised)",
+                   "self._ticks == value and mirrored_to_current_player(value)")],
+         modifies=["self._ticks"], raises={})
+    return C
+
+
 def build_extra():
     C2 = ContractSet("C11", "persisted enable flags of mode devices (EnableDisableMixin)")
     C2.strings = True
@@ -739,4 +845,4 @@ def build_extra():
     C4 = C13.build()
     C4.pid = "C11t"
     C4.only_verify = ["Timer.stop", "Timer.device_removed_from_mode"]
-    return [C2, C3, C4, scoring_set()]
+    return [C2, C3, C4, scoring_set(), variable_player_set(), timer_var_set()]
